@@ -4,6 +4,7 @@ import InfluxQL.Lemmas.ParserTok
 import InfluxQL.Lemmas.IntLit
 import InfluxQL.Props.C03
 import InfluxQL.Lemmas.Render
+import InfluxQL.Lemmas.ExprRender
 /-
 C01 — the parser accepts the grammar and builds the denoted AST.
 
@@ -1406,5 +1407,113 @@ example : parseStatementText "SHOW stats FOR 'runtime'".toList [] [] = .ok (.sho
       none [] [] (fun _ => rfl) (by decide +kernel) ?_ (fun _ => nextNot_eof _ (by decide))
     exact legal_of_spaced _ _ _ _ (by decide +kernel) (by decide +kernel) (by decide +kernel)
       (fun q _ => q.2.endOK_eof)
+
+/-! ## Free spelling of expressions
+
+C03 proves `ParseExpr (e.String()) = e` — the *printed* spelling. Here: **every legal spelling**.
+A spelled expression (`ER.SExpr`: `ER.SAtom` operands — variable references bare or quoted, integer
+literals with leading zeros, string literals, `true` / `false` in any case, duration literals,
+parenthesised chains; `ER.SOps` operator chain — all 18 binary operators, `=~` / `!~` with a regex
+literal) carries a `Render.Gap`
+— any number of whitespace runs and comments — at every place where the parser calls
+`ScanIgnoreWhitespace`, and the spelling choices of every token. `legal` (decidable) says that every gap
+and token is well formed and that no token runs into the next one (`aANDb`, `1h`, `a<=b` for `a < =b`,
+`a--b`, `a/*` are other token sequences). -/
+
+/-- **C01, expressions, any legal spelling.** For every spelled expression `e` that is legal before the
+end of the input, `ParseExpr` on its text returns the expression the text denotes (`e.erase`) —
+whatever the bound parameters and the lower-casing table. `text` is the raw input (`foldCR`: the
+reader delivers CR and CRLF as LF, so raw gaps may contain them). -/
+theorem expr_render_parse (e : ER.SExpr) (text : Str) (params : List (Str × BoundValue)) (tbl : List (Char × Char))
+    (htext : foldCR text = e.text) (hl : e.legal [eofRune] = true) : parseExprText text params tbl = .ok e.erase :=
+  ER.parseExprText_render e text params tbl htext hl
+
+/-- **State-level form** (what a statement parser needs): from any parser state standing before a legal
+spelling of `e` followed by `post` — nothing pushed back, or the token scanned there pushed back —
+where the first token `T` of `post` is no binary operator and none of `(`, `.`, `::`: `ParseExpr`
+returns `e.erase`, keeps parameters, table and the three-slot bound of the token ring (`s.buf.length ≤ 3`:
+true of every reachable state), and stands before `post` having looked at `T` and pushed
+it back (or the fuel was too small). -/
+theorem expr_render_parse_state (F : Nat) (s : PState) (e : ER.SExpr) (post : Str) (T : Token)
+    (hF : ER.First post T) (hT : ER.StopTok T) (hb : s.buf.length ≤ 3) (hl : e.legal post = true)
+    (hat : RT.At s (e.text ++ post)) :
+    wp (parseExpr F) s (fun e' s' => e' = e.erase ∧ RT.At s' post ∧ ER.Keeps s s') RT.IsFuel :=
+  ER.parseExpr_render_state F s e post T hF hT hb hl hat
+
+/-- **What the text denotes.** `e.erase` is not defined by the parser's own insertion step only: it is
+the image of C03's `parseChain` over the operands and operators in reading order, hence
+(`chain_wellGrouped`, `chain_yield`, `chain_unique`) *the* tree with this yield that is grouped by the
+five precedence levels, left-associatively. -/
+theorem expr_render_denotes (e : ER.SExpr) :
+    e.erase = RT.embT (Prec.parseChain e.a.erase e.ops.pairs) ∧
+      Prec.WellGrouped (Prec.parseChain e.a.erase e.ops.pairs) ∧
+      Prec.firstAtom (Prec.parseChain e.a.erase e.ops.pairs) = e.a.erase ∧
+      Prec.yieldOps (Prec.parseChain e.a.erase e.ops.pairs) = e.ops.pairs :=
+  ⟨e.erase_eq, Prec.wellGrouped_parseChain _ _, (Prec.yield_parseChain _ _).1, (Prec.yield_parseChain _ _).2⟩
+
+/-- Every legal spelling of a binary operator is one token: `AND` / `OR` in any letter case before a
+word end, the sixteen symbolic operators (`!=` and `<>` for NEQ) unless the next rune would make a
+longer token (`=~`, `<=`, `<>`, `>=`) or open a comment (`--`, `/*`). -/
+theorem operator_any_spelling (op : Token) (w k : Str) (h1 : ER.opSpellB op w = true) (h2 : ER.opEndB op w k = true) :
+    ScansAs w k op [] := ER.scansAs_op op w k h1 h2
+
+/-- `a+b  *⏎( c -- x⏎ - 1 )  aNd⇥d = 'x'`. -/
+def exprExample1 : ER.SExpr :=
+  { g0 := [], a := .ref .bare ['a'],
+    ops := .cons [] .ADD ['+'] [] (.ref .bare ['b'])
+      (.cons [.ws ' ', .ws ' '] .MUL ['*'] [.ws '\n']
+        (.paren [.ws ' '] (.ref .bare ['c'])
+          (.cons [.ws ' ', .line [' ', 'x'], .ws ' '] .SUB ['-'] [.ws ' '] (.int 0 1) .nil) [.ws ' '])
+      (.cons [.ws ' ', .ws ' '] .AND ['a', 'N', 'd'] [.ws '\t'] (.ref .bare ['d'])
+      (.cons [.ws ' '] .EQ ['='] [.ws ' '] (.str ['x']) .nil))),
+    g := [] }
+
+/-- Non-vacuity, through the theorem (not by evaluating the parser): gaps of every kind, a line
+comment inside parentheses, `aNd`, no gap around `+`. -/
+example : parseExprText "a+b  *\n( c -- x\n - 1 )  aNd\td = 'x'".toList [] [] =
+    .ok (.binary .AND
+      (.binary .ADD (.varRef ['a'] .Unknown)
+        (.binary .MUL (.varRef ['b'] .Unknown)
+          (.paren (.binary .SUB (.varRef ['c'] .Unknown) (.integer 1)))))
+      (.binary .EQ (.varRef ['d'] .Unknown) (.string ['x']))) :=
+  expr_render_parse exprExample1 _ [] [] (by decide) (by decide)
+
+/-- `"select"<>007/**/OR\r\n(x)`: a quoted keyword as a name, `<>`, leading zeros, an empty block
+comment as the only gap, CRLF. -/
+example : parseExprText "\"select\"<>007/**/OR\r\n(x)".toList [] [] =
+    .ok (.binary .OR (.binary .NEQ (.varRef "select".toList .Unknown) (.integer 7)) (.paren (.varRef ['x'] .Unknown))) :=
+  expr_render_parse
+    { g0 := [], a := .ref .quoted "select".toList,
+      ops := .cons [] .NEQ ['<', '>'] [] (.int 2 7) (.cons [.block []] .OR ['O', 'R'] [.ws '\n'] (.paren [] (.ref .bare ['x']) .nil []) .nil),
+      g := [] } _ [] [] (by decide) (by decide)
+
+/-- `host=~ /* any */\n/^a\/b/ and\tn !~-- c\n /x/`: gaps with comments between `=~` / `!~` and the regex
+(`parseRegex` peeks at runes: the gap is skipped by its own whitespace / comment loop). -/
+example : parseExprText "host=~ /* any */\n/^a\\/b/ and\tn !~-- c\n /x/".toList [] [] =
+    .ok (.binary .AND (.binary .EQREGEX (.varRef "host".toList .Unknown) (.regex "^a/b".toList))
+      (.binary .NEQREGEX (.varRef ['n'] .Unknown) (.regex ['x']))) :=
+  expr_render_parse
+    { g0 := [], a := .ref .bare "host".toList,
+      ops := .consRe [] .EQREGEX ['=', '~'] [.ws ' ', .block " any ".toList, .ws '\n'] "^a/b".toList
+        (.cons [.ws ' '] .AND "and".toList [.ws '\t'] (.ref .bare ['n'])
+        (.consRe [.ws ' '] .NEQREGEX ['!', '~'] [.line " c".toList, .ws ' '] ['x'] .nil)),
+      g := [] } _ [] [] (by decide) (by decide)
+
+/-- ` time>1h30m\r\noR/***/k=TRUE \n`: a duration literal and a boolean in capitals, no gap around `>` and
+`=`, CRLF, a block comment as the only gap after `oR`, leading and trailing gaps. -/
+example : parseExprText " time>1h30m\r\noR/***/k=TRUE \n".toList [] [] =
+    .ok (.binary .OR (.binary .GT (.varRef "time".toList .Unknown) (.duration 5400000000000))
+      (.binary .EQ (.varRef ['k'] .Unknown) (.boolean true))) :=
+  expr_render_parse
+    { g0 := [.ws ' '], a := .ref .bare "time".toList,
+      ops := .cons [] .GT ['>'] [] (.dur "1h30m".toList 5400000000000)
+        (.cons [.ws '\n'] .OR ['o', 'R'] [.block ['*']] (.ref .bare ['k'])
+        (.cons [] .EQ ['='] [] (.bool "TRUE".toList true) .nil)),
+      g := [.ws ' ', .ws '\n'] } _ [] [] (by decide) (by decide +kernel)
+
+/-- Outside `legal`, and rightly so: `a ---x⏎ b` is `a`, a comment, `b` (`ParseExpr` returns `a` and
+leaves `b`), not `a - b`. -/
+example : (ER.SExpr.mk [] (.ref .bare ['a']) (.cons [.ws ' '] .SUB ['-'] [.line ['x'], .ws ' '] (.ref .bare ['b']) .nil) []).legal
+    [eofRune] = false := by decide
 
 end InfluxQL.C01
